@@ -41,6 +41,7 @@ MonInit ==
     dirty |-> {},        \* conns holding bytes the proxy has not read yet (it reads data before EOF)
     recvd |-> {}, lost |-> {}, noticed |-> {}, expired |-> {}, tmo |-> {}, rd |-> {},
     connLost |-> FALSE, viol |-> {}, dead |-> FALSE,
+    slow |-> {},         \* clients that stopped reading at some point: "by the end of the iteration" means nothing for them
     topoSeen |-> FALSE,  \* the scenario changes the cluster's description (the slot table is then not the static one)
     role |-> "", base |-> [nlog |-> <<>>, got |-> <<>>, cst |-> <<>>] ]   \* C08: outcome of the unsegmented twin
 
@@ -135,7 +136,8 @@ GotViol(m, c, i, rep) ==
              \cup (IF HadTimeout(m, c) /\ (foreign # {} \/ ~TypeFits(r.k, rep))
                    THEN {<<"C16", c, i, "reply-after-a-timeout-is-not-the-request's">>} ELSE {})
       rest ==
-        IF r.k \in LocalKinds \/ IsTimeoutErr(rep) \/ foreign # {} \/ ~TypeFits(r.k, rep) THEN {}
+        \* ("cmd": a request given as raw bytes; what its reply must be is decided byte by byte, by RawTrace)
+        IF r.k \in LocalKinds \/ r.k = "cmd" \/ IsTimeoutErr(rep) \/ foreign # {} \/ ~TypeFits(r.k, rep) THEN {}
         ELSE IF HasUnowned(r) THEN
           (IF rep.t = "perr" /\ rep.txt = "unknown slot" THEN {} ELSE {<<"C17", c, i, "unowned-slot-not-rejected">>})
         ELSE IF r.k \notin MultiKinds THEN
@@ -189,7 +191,7 @@ Redirected(m, c, i) == \E f \in Frags(m, c, i) : f \in DOMAIN m.redir /\ \E k \i
 
 WaitViol(m, final) ==
   UNION { LET i0 == Len(Got(m, c)) + 1 IN
-          IF Cst(m, c) = "open" /\ i0 <= Len(Sent(m, c)) /\ ReqResolved(m, c, i0, final)
+          IF Cst(m, c) = "open" /\ i0 <= Len(Sent(m, c)) /\ ReqResolved(m, c, i0, final) /\ (final \/ c \notin m.slow)
           THEN {<<WaitProp(m, c, i0), c, i0, IF final THEN "never-answered" ELSE "reply-withheld">>}
                \cup (IF Sent(m, c)[i0].k \notin LocalKinds /\ Redirected(m, c, i0)
                      THEN {<<"C13", c, i0, IF final THEN "redirected-request-never-answered" ELSE "redirected-request-reply-withheld">>} ELSE {})
@@ -230,7 +232,7 @@ RecvViol(m, e, f) ==
              ELSE (IF [x \in DOMAIN e.toks |-> e.toks[x].j] # ExpJs(r, f[3])
                       \/ \E x \in DOMAIN e.toks : e.toks[x].c # e.c \/ e.toks[x].i # e.i \/ e.toks[x].s # f[3]
                    THEN {<<"C06", e.c, e.i, "fragment-keys-differ">>} ELSE {})
-                  \cup (IF e.k # r.k THEN {<<"C06", e.c, e.i, "fragment-kind-differs">>} ELSE {})
+                  \cup (IF e.k # r.k /\ r.k # "cmd" THEN {<<"C06", e.c, e.i, "fragment-kind-differs">>} ELSE {})
                   \cup (IF \E x \in DOMAIN e.toks : e.toks[x].v = "badval" THEN {<<"C06", e.c, e.i, "mset-value-unpaired">>} ELSE {})
                   \cup (IF resend /\ f \notin DOMAIN m.redir THEN {<<"C06", e.c, e.i, "duplicate-fragment">>} ELSE {})
       v17 == IF r.k \in LocalKinds \/ (r.k # "?" /\ HasUnowned(r) /\ Len(r.slots) = 1)
@@ -339,6 +341,7 @@ MonApply(m, e) ==
                                 : c \in DOMAIN m1.got }
          IN AddViol(m1, WaitViol(m1, TRUE) \cup missing)
     [] e.ev \in {"topo", "refreshed"} -> [m EXCEPT !.topoSeen = TRUE]
+    [] e.ev = "pause" -> [m EXCEPT !.slow = @ \cup {e.c}]
     [] e.ev = "dead" -> [m EXCEPT !.dead = TRUE, !.viol = @ \cup {<<"DEAD", "", 0, "proxy-died">>}]
     [] OTHER -> m
 =============================================================================
